@@ -105,8 +105,10 @@ def from_edge(edge: EdgeTemplate, return_dict: dict, base: str = 'EdgeTemplate')
 def add_to_dict(template, template_dict: dict, full_dict: dict):
 
     temp_key = template.name
-    existing_labels = {key: 0 for key in full_dict.keys()}
-    if temp_key in full_dict and full_dict[temp_key] != template_dict:
-        temp_key, _ = get_unique_label(temp_key, existing_labels)
+    n = 0
+    # find a key that is either unused or already holds an identical definition
+    while temp_key in full_dict and full_dict[temp_key] != template_dict:
+        n += 1
+        temp_key = f"{template.name}_num{n}"
     full_dict[temp_key] = template_dict
     return temp_key
